@@ -1478,7 +1478,7 @@ class Exec:
         for item in n.items:
             ce = item.context_expr
             ok = isinstance(ce, ast.Call) and isinstance(ce.func, ast.Attribute) and isinstance(ce.func.value, ast.Name) \
-                and ce.func.value.id == "warnings"
+                and (ce.func.value.id == "warnings" or (ce.func.value.id == "np" and ce.func.attr == "errstate"))      # floating-point warning state only
             if not ok:
                 raise Undecided(f"with-statement at line {n.lineno}")
         return self.run(n.body, st)
